@@ -32,7 +32,9 @@ func (s *Server) VerifSetSettings(v VerifSettings) { s.setSettings(v) }
 func (s *Server) VerifSupportsConfiguration() bool { return s.supportsConfiguration }
 
 // VerifRefreshConfiguration runs the body of the background refresh task synchronously.
-func (s *Server) VerifRefreshConfiguration(ctx context.Context) { s.refreshConfiguration(ctx) }
+func (s *Server) VerifRefreshConfiguration(ctx context.Context) {
+	s.refreshConfiguration(ctx, s.nextRefresh())
+}
 
 // VerifSettingsSource is the path of settings.go as compiled into this binary.
 func VerifSettingsSource() string {
